@@ -133,7 +133,8 @@ func (t *T) MergeHash(variantT *T) {
 			continue
 
 		default:
-			unionType := MakeUnion([]T{*existT, *newValueT})
+			// unified: a new value that is itself a union is merged flat
+			unionType := MakeUnifiedT([]T{*existT, *newValueT})
 			mergedVariant := MakeKeyValue(variant.key, unionType)
 			t.AppendHashVariant(*mergedVariant)
 		}
